@@ -163,7 +163,46 @@ Proof. rewrite cos_PI4. f_equal. unfold Rdiv. ring. Qed.
 Lemma sin_PI4_K : (RtoC (sin (PI / 4)) : CS) = RtoC (/ sqrt 2).
 Proof. rewrite sin_PI4. f_equal. unfold Rdiv. ring. Qed.
 
-(** unfolding of the generated data at concrete parameter lists *)
-Ltac expose_R :=
-  cbv [matrix_R inv_matrix_R inv_params inv_n inv_cls guard_ok atoms_R atoms_aux aeval reval rpar sumsq
-       db_mat db_atoms db_inv db_guard db_nw nth app map fst snd c0].
+(** ---- the atom bundles of ElemProofs hold for the real functions *)
+Lemma cs_ok_R (x : R) : cs_ok (RtoC (cos x) : CS) (RtoC (sin x)).
+Proof. repeat split; try apply real_R. apply cs_R. Qed.
+
+Lemma h_ok_R : h_ok (RtoC (sqrt 2) : CS) (RtoC (/ sqrt 2)).
+Proof.
+  repeat split; try apply real_R.
+  - rewrite sqrt_sq_R by lra. apply two_R.
+  - apply inv_R. apply sqrt2_neq0.
+Qed.
+
+Lemma unit_ok_R (x : R) : unit_ok ((cos x, sin x) : CS).
+Proof. apply expi_unit. Qed.
+
+Lemma nrm_ok_R (v0 v1 v2 : R) :
+  let t := sqrt (v0 * v0 + (v1 * v1 + (v2 * v2 + 0)))%R in
+  t <> 0%R ->
+  nrm_ok (RtoC v0 : CS) (RtoC v1) (RtoC v2) (RtoC t) (RtoC (/ t)).
+Proof.
+  intros t Ht. repeat split; try apply real_R.
+  - unfold t. rewrite sqrt_sq_R.
+    + rewrite <- !RtoC_mul_K, <- !RtoC_add_K. f_equal. ring.
+    + pose proof (Rle_0_sqr v0); pose proof (Rle_0_sqr v1); pose proof (Rle_0_sqr v2).
+      unfold Rsqr in *. lra.
+  - apply inv_R. exact Ht.
+Qed.
+
+(** the norm of the negated vector is the norm *)
+Lemma norm_neg (v0 v1 v2 : R) :
+  sqrt (- v0 * - v0 + (- v1 * - v1 + (- v2 * - v2 + 0)))%R = sqrt (v0 * v0 + (v1 * v1 + (v2 * v2 + 0)))%R.
+Proof. f_equal. ring. Qed.
+
+(** unfolding of the generated data at concrete parameter lists: the caller unfolds the
+    generated constants (Run.GenGates.gen_unfold) between the two steps *)
+Ltac expose_R1 :=
+  cbv [matrix_R inv_matrix_R inv_params inv_n inv_cls guard_ok].
+Ltac expose_R2 :=
+  cbv [matrix_R inv_matrix_R inv_params inv_n inv_cls guard_ok
+       atoms_R atoms_aux aeval reval rpar sumsq nth app map c0];
+  repeat match goal with
+         | |- context [fst (RtoC ?x)] => change (fst (RtoC x)) with x
+         | H : context [fst (RtoC ?x)] |- _ => change (fst (RtoC x)) with x in H
+         end.
